@@ -181,9 +181,11 @@ def floats_of(vals):
             flat.append(Fraction(x) if not isinstance(x, Fraction) else x)
     walk(vals)
     flat.append(Fraction(0))
+    flat.append(Fraction(repr(FLOAT_MAX)))
     fl = order_preserved(flat)
     if fl is None:
         return None
+    fl = fl[:-2]
     it = iter(fl)
 
     def rebuild(x):
